@@ -4,6 +4,7 @@ import (
 	"flag"
 	"fmt"
 	"os"
+	"runtime/pprof"
 	"sort"
 	"time"
 
@@ -11,23 +12,33 @@ import (
 )
 
 func main() {
+	if p := os.Getenv("GOSYM_CPUPROFILE"); p != "" {
+		f, _ := os.Create(p)
+		pprof.StartCPUProfile(f)
+		rc := realMain()
+		pprof.StopCPUProfile()
+		os.Exit(rc)
+	}
+	os.Exit(realMain())
+}
+
+func realMain() int {
 	if len(os.Args) < 2 {
 		fmt.Fprintln(os.Stderr, "usage: gosym run <harness>... | check <id> [--tier quick|thorough] | replay <file>")
-		os.Exit(2)
+		return 2
 	}
 	switch os.Args[1] {
 	case "run":
-		os.Exit(cmdRun(os.Args[2:]))
+		return cmdRun(os.Args[2:])
 	case "check":
-		os.Exit(cmdCheck(os.Args[2:]))
+		return cmdCheck(os.Args[2:])
 	case "replay":
-		os.Exit(cmdReplay(os.Args[2:]))
+		return cmdReplay(os.Args[2:])
 	case "selftest":
-		os.Exit(cmdSelftest(os.Args[2:]))
-	default:
-		fmt.Fprintln(os.Stderr, "unknown command", os.Args[1])
-		os.Exit(2)
+		return cmdSelftest(os.Args[2:])
 	}
+	fmt.Fprintln(os.Stderr, "unknown command", os.Args[1])
+	return 2
 }
 
 func envOr(k, d string) string {
